@@ -447,4 +447,16 @@ theorem intHelper_marker (op : Arith.IntOp) (c : Ctx) (as : List Arg) (hlen : 2 
           · exact e
         exact foldRun_marker c op ts as' h2 x ⟨b, hb', hnone⟩
 
+/-- Whatever `strconv.ParseInt(s, 10, 64)` returns is an int64. -/
+theorem atoi_inInt64 {s : Bytes} {v : Int} (h : atoi s = some v) : inInt64 v = true := by
+  unfold atoi at h
+  split at h
+  rename_i neg ds _
+  simp only [] at h
+  split at h
+  · cases h
+  · by_cases hin : inInt64 (if neg = true then -(digitsVal ds 0 : Int) else (digitsVal ds 0 : Int)) = true
+    · rw [if_pos hin] at h; cases h; exact hin
+    · rw [if_neg hin] at h; cases h
+
 end Rare.C11
